@@ -471,7 +471,51 @@ def run_fitting(ctx, rng, exhaustive_shapes=True):
                     ctx.violation('fit:%s:%s' % (path, cls), {
                         'case': case, 'observed': xl.show(got),
                         'accepted': [xl.show(want)]})
+            # computed results: the same formula over an input range X is
+            # stored into a range of X's own shape (the unfitted result) and
+            # into this destination; IS... arrays only as arguments (their own
+            # padding is the library's choice)
+            tmpl = FIT_TEMPLATES[k % len(FIT_TEMPLATES)]
+            if tmpl == '=@' and (dr < sr or dc < sc_) and (sr, sc_) != (1, 1):
+                continue        # a reference that does not fit: implicit intersection
+            if sr * sc_ == dr * dc and (sr, sc_) != (dr, dc):
+                continue        # open finding C05-equal-size-reshaped (the two paths above)
+            xref = 'H1' if (sr, sc_) == (1, 1) else 'H1:%s%d' % ('HIJK'[sc_ - 1], sr)
+            exact = 'A1' if (sr, sc_) == (1, 1) else 'A1:%s%d' % ('ABCD'[sc_ - 1], sr)
+            formula = tmpl.replace('@', xref)
+            case = {'kind': 'fit-computed', 'src': vals, 'dest': [dr, dc],
+                    'formula': formula}
+            ctx.case(('fit-computed', sr, sc_, dr, dc, tmpl))
+            arr = np.empty((sr, sc_), object)
+            for i in range(sr):
+                for j in range(sc_):
+                    arr[i, j] = vals[i][j]
+            try:
+                res = []
+                for ref in (exact, dest):
+                    d = sh.Dispatcher()
+                    c = Cell(ref, formula).compile()
+                    c.add(d)
+                    res.append(xl.canon(d({xref: arr if (sr, sc_) != (1, 1) else vals[0][0]})[
+                        c.output]))
+            except Exception as ex:
+                ctx.violation('fit:raised:computed:%s:%s' % (cls, type(ex).__name__), {
+                    'case': case, 'observed': repr(ex)[:150], 'accepted': ['a value']})
+                continue
+            unfitted = res[0][1:] if res[0][0] == 'arr' else ((res[0],),)
+            want = ref_fit([list(r) for r in unfitted], dr, dc)
+            got = res[1] if res[1][0] == 'arr' else ('arr', (res[1],))
+            ctx.count('monitor.fit-computed')
+            if got != want:
+                ctx.violation('fit:computed:%s:%s' % (tmpl.replace('@', 'X'), cls), {
+                    'case': case, 'unfitted_result': xl.show(res[0]),
+                    'observed': xl.show(got), 'accepted': [xl.show(want)]})
     ctx.sample({'source': vals, 'destination': [dr, dc], 'fitted': xl.show(want)})
+
+
+FIT_TEMPLATES = ['=IF(ISNUMBER(@),@,"t")', '=NOT(ISTEXT(@))', '=ISNUMBER(@)=TRUE',
+                 '=ISERROR(@)&""', '=@', '=+@', '=@&"z"', '=IFS(ISNUMBER(@),1,TRUE,2)',
+                 '=IF(ISTEXT(@),@,@)', '=@', '=SWITCH(ISTEXT(@),TRUE,@,7)']
 
 
 def _scls(r, c):
@@ -512,8 +556,8 @@ def check_case(case, ctx):
         if isinstance(f, dict):
             f = f['function']
         check_lift(name, f, [_dec(a) for a in case['args']], ctx, case)
-    elif k == 'fit':
-        run_fitting(ctx, ctx.rng)
+    elif k in ('fit', 'fit-computed'):
+        run_fitting(ctx, ctx.rng)      # the fitting sweep is deterministic
     elif k == 'many':
         F = formulas.get_functions()
         f = F[case['func']]
@@ -542,7 +586,8 @@ def run(spec, ctx):
 def finalize(agg, tier):
     c, inc = agg['counters'], []
     for k, floor in (('monitor.lift-elements', 20000), ('monitor.fit', 700),
-                     ('monitor.many-args', 300), ('monitor.lift-cell-elements', 500)):
+                     ('monitor.many-args', 300), ('monitor.lift-cell-elements', 500),
+                     ('monitor.fit-computed', 250)):
         if c.get(k, 0) < floor:
             inc.append('monitor %s saw %d events (< %d)' % (k, c.get(k, 0), floor))
     counts = set(agg['sets'].get('arg_count', ()))
